@@ -37,6 +37,7 @@ struct World {
     void run(const Plan& p);
     void observe_quiescent(int rep);
     void observe_full(int rep);
+    void log_live();
     bool machine_active(const Snap& s, int mi) const;
     void refresh_extents();
     int add_replica(IMachine* m);
